@@ -210,7 +210,7 @@ PROPS["C13"] = {
 }
 
 PROPS["C14"] = {
-    "modules": ["TurnModel.Props.C14", "TurnModel.Props.C14Data"], "gen": True,
+    "modules": ["TurnModel.Props.C14", "TurnModel.Props.C14Data", "TurnModel.Props.C14Perm"], "gen": True,
     "harnesses": ["H6"], "view": ["k6", "kadv", "kwr", "kpw", "kclose"], "outs": None,
     "alarms": ["probe-lost", "close-leaves-allocation", "close-ignored-438", "h6-setup", "harness-died"],
     "rule": "H6 runs the real turn.Client (Allocate, UDPConn with its three periodic timers, WriteTo, ReadFrom, Close) against the real turn.Server on the in-memory network "
@@ -225,9 +225,8 @@ PROPS["C14"] = {
                                "steps the model marks undetermined (same-millisecond race between a 438 and another request being built, an action exactly on an expiry "
                                "instant, Close with a transaction in flight, after the allocation died) are replayed but not compared; their count is in the evidence"],
     "assumptions": ["PARTIAL: real timer latency, goroutine scheduling delays and network delay are outside the model (zero-delay network, exact timers)",
-                    "alloc_never_dies, bindings_never_expire and data_keeps_flowing are proved on the composed model for any run length; the liveness of the "
-                    "(IP-wide) permissions of peers that are not channel-bound is proved at the level of the abstract driver (driver_keeps_alive) and checked on the "
-                    "composed model by correspondence only - in the model, as in the client, every peer written to gets a channel binding",
+                    "alloc_never_dies, bindings_never_expire, data_keeps_flowing and nothing_expires (allocation, every binding, every permission) are proved on the "
+                    "composed model for any run length; in the model, as in the client, every peer written to gets a permission and a channel binding",
                     "known finding F13: Close ignores a 438 to its Refresh(0)"],
 }
 
@@ -324,7 +323,7 @@ MANIFEST_TEXT.update({
 
 # properties whose check is not built yet (kept current; emptied as checks land)
 MANIFEST_TEXT["C14"] = _mt(
-    "alloc_never_dies, bindings_never_expire, data_keeps_flowing (a probe written to any peer is relayed and a probe from any peer is delivered, after ANY run): on the composed model of the client's refresh drivers (periodic timers, <= 3 attempts, retransmission clock of M5) and the server's expiry timers and "
+    "alloc_never_dies, bindings_never_expire, nothing_expires (allocation, every binding and every permission unexpired after ANY run), data_keeps_flowing (a probe written to any peer is relayed and a probe from any peer is delivered, after ANY run): on the composed model of the client's refresh drivers (periodic timers, <= 3 attempts, retransmission clock of M5) and the server's expiry timers and "
     "one-hour nonce window, for every Compatible configuration, every loss / response-loss / duplication pattern leaving one answered transmission per transaction, any number "
     "of peers and ANY sequence of time steps and probes, the allocation is live at the end of every prefix (induction over events, no bound on duration). "
     "refresh_keeps_alive + driver_gaps + driver_keeps_alive: any entry whose driver period plus twice its handler time is below the server timeout survives any number of "
